@@ -394,6 +394,90 @@ def position_source(pos, s):
     return "\n".join(src) + "\n"
 
 
+def fresh_name_obligations(pid):
+    """FRESH-NAME: every helper the emitters define is stored under a name that contains a fresh token (random_hex()).  The rest of
+    such a name is made of sanitised schema text (class name, field name, clean_id(...)), and sanitising is not injective ("it's" and
+    'it"s' give one identifier): a name without the fresh token lets two different types of one class share - or overwrite - one helper,
+    i.e. a schema-supplied string would select code."""
+    obs = []
+    for m in MODULES:
+        try:
+            tree = ast.parse(open(f"{REPO}/{m}").read())
+        except OSError:
+            continue
+        for n in ast.walk(tree):
+            if not isinstance(n, ast.JoinedStr) or not n.values:
+                continue
+            first = n.values[0]
+            if not (isinstance(first, ast.Constant) and isinstance(first.value, str) and first.value.startswith(("__pack_", "__unpack_"))):
+                continue
+            fresh = any(isinstance(v, ast.FormattedValue) and any(isinstance(c, ast.Call) and isinstance(c.func, ast.Name) and c.func.id == "random_hex" for c in ast.walk(v))
+                        for v in n.values)
+            oid = f"{pid}.S[{m.split('/')[-1]}:{first.value[:40]}@{n.lineno}]/fresh_name"
+            ob = dict(id=oid, status="proved" if fresh else "refuted", unit=f"{m}:{n.lineno}", sample=ast.unparse(n)[:160])
+            if not fresh:
+                ob["detail"] = f"helper name template {ast.unparse(n)[:160]} has no fresh token: distinct types whose sanitised text coincides share one helper"
+                ob["witness"] = _pair_witness()
+            obs.append(ob)
+    if not obs:
+        obs.append(dict(id=f"{pid}.S[fresh_name]/cover", status="error", detail="no helper name template found in the emitter modules"))
+    return obs
+
+
+PAIRS = [("it's", 'it"s'), ("a b", "a-b"), ("{x}", "%x%"), ("n\n", "n\t")]
+
+
+def _pair_source(s1, s2):
+    return "\n".join([g4.PRELUDE, f"S1 = {s1!r}", f"S2 = {s2!r}", "@dataclass", "class C(DataClassDictMixin):", f"    a: Literal[{s1!r}]", f"    b: Literal[{s2!r}]",
+                      f"    c: Optional[Literal[{s2!r}, 1]] = None", "TD = TypedDict('TD', {'k': Literal[" + repr(s1) + "], 'l': Literal[" + repr(s2) + "]})",
+                      "@dataclass", "class D(DataClassDictMixin):", "    t: TD"]) + "\n"
+
+
+def _pair_problems(s1, s2):
+    src = _pair_source(s1, s2)
+    probs = []
+    mod, _ = build.build_module(src)
+    try:
+        for label, call, want in (("C", lambda: mod.C.from_dict({"a": s1, "b": s2}), lambda: mod.C(s1, s2)),
+                                  ("D", lambda: mod.D.from_dict({"t": {"k": s1, "l": s2}}), lambda: mod.D({"k": s1, "l": s2}))):
+            try:
+                got = call()
+                if got != want():
+                    probs.append(f"{label}: decoded {got!r}")
+            except Exception as e:  # noqa
+                probs.append(f"{label}: the fields' own literal values are rejected: {type(e).__name__}: {str(e)[:120]}")
+        try:
+            got = mod.C.from_dict({"a": s1, "b": s1})
+            probs.append(f"C: field b: Literal[{s2!r}] accepted {s1!r} ({got!r})")
+        except Exception:  # noqa
+            pass
+    finally:
+        build.drop_module(mod)
+    return src, probs
+
+
+def _pair_witness():
+    for s1, s2 in PAIRS:
+        try:
+            src, probs = _pair_problems(s1, s2)
+        except Exception:  # noqa
+            continue
+        if probs:
+            return {"confirmed": True, "source": src, "input": f"C.from_dict({{'a': {s1!r}, 'b': {s2!r}}})", "why": probs[0]}
+    return None
+
+
+def pair_task(payload):
+    pid, s1, s2 = payload
+    try:
+        src, probs = _pair_problems(s1, s2)
+    except Exception as e:  # noqa
+        return {"obligations": [dict(id=f"{pid}.G[literal_pair:{s1!r}|{s2!r}]/builds", status="refuted", detail=f"{type(e).__name__}: {e}"[:300],
+                                     witness={"confirmed": True, "source": _pair_source(s1, s2), "why": f"{type(e).__name__}: {e}"[:300]})]}
+    return {"obligations": [dict(id=f"{pid}.G[literal_pair:{s1!r}|{s2!r}]/data", status="proved" if not probs else "refuted", unit="two Literal types whose sanitised text coincides, in one class",
+                                 detail="; ".join(probs)[:500], bounded=True, witness=({"confirmed": True, "source": src, "why": probs[0]} if probs else None))]}
+
+
 def alphabet_task(payload):
     pid, pos, s = payload
     label = f"[{pos}:{s!r}]"
@@ -475,7 +559,8 @@ def check(pid, tier):
                 # Python itself refuses a class attribute named __class__ holding a string (type.__setattr__ raises), so
                 # that name cannot be a discriminator field of any hierarchy: not a schema mashumaro can be given
                 if not (pos == "discriminator_field" and s == "__class__")]
-    res = runner.run_pool(alphabet_task, payloads, chunks=4)
+    obs += fresh_name_obligations(pid)
+    res = runner.run_pool(alphabet_task, payloads, chunks=4) + runner.run_pool(pair_task, [(pid, a_, b_) for a_, b_ in PAIRS], chunks=1)
     crashes = []
     nb = 0
     for r in res:
